@@ -107,8 +107,9 @@ fn word(r: &mut Rng, alphabet: &[u8], lo: usize, hi: usize) -> String {
 }
 
 fn text(r: &mut Rng) -> String {
-    // arbitrary UTF-8, non-empty, not starting with '-' (not ambiguous on a command line)
-    let n = r.range(1, 24) as usize;
+    // arbitrary UTF-8, non-empty, not starting with '-' (not ambiguous on a command line);
+    // now and then a length around the 64 / 128 marks
+    let n = if r.chance(1, 12) { *r.pick(&[1usize, 63, 64, 65, 127, 128, 129, 200]) } else { r.range(1, 24) as usize };
     let mut s: String = (0..n).map(|_| *r.pick(&TEXTCH)).collect();
     if s.starts_with('-') || s.trim().is_empty() {
         s.insert(0, 'x');
@@ -130,6 +131,11 @@ fn base_name(r: &mut Rng) -> String {
 }
 
 fn host(r: &mut Rng) -> String {
+    if r.chance(1, 16) {
+        // long names: a 63-character label, or close to the 253-character limit
+        let l63: String = (0..63).map(|_| *r.pick(&NAMECH[..26]) as char).collect();
+        return if r.bool() { format!("{l63}.example") } else { format!("{l63}.{l63}.{l63}.{}", &l63[..59]) };
+    }
     let labels = r.range(1, 4);
     let mut v = Vec::new();
     for _ in 0..labels {
@@ -148,7 +154,13 @@ fn host(r: &mut Rng) -> String {
 
 fn ip(r: &mut Rng) -> SanArg {
     if r.bool() {
-        let b = r.bytes(4);
+        let mut b = r.bytes(4);
+        match r.below(8) {
+            0 => b = vec![0, 0, 0, 0],
+            1 => b = vec![255, 255, 255, 255],
+            2 => b = vec![127, 0, 0, 1],
+            _ => {}
+        }
         let a = std::net::Ipv4Addr::new(b[0], b[1], b[2], b[3]);
         SanArg::Ip(a.to_string(), b)
     } else {
@@ -184,7 +196,16 @@ fn gen_invocation(r: &mut Rng, names: Option<(String, String)>) -> Invocation {
     let algs = valid_algs();
     let mut inv = Invocation {
         alg: if r.chance(1, 5) { None } else { Some(r.pick(&algs).to_string()) },
-        sans: (0..*r.pick(&[0u64, 0, 1, 1, 2, 3, 5, 12])).map(|_| if r.chance(3, 5) { SanArg::Dns(host(r)) } else { ip(r) }).collect(),
+        sans: {
+            let mut v: Vec<SanArg> =
+                (0..*r.pick(&[0u64, 0, 1, 1, 2, 3, 5, 12, 40])).map(|_| if r.chance(3, 5) { SanArg::Dns(host(r)) } else { ip(r) }).collect();
+            // the same name given twice is still "exactly the given names" (as a multiset)
+            if !v.is_empty() && r.chance(1, 8) {
+                let d = v[r.usize(v.len())].clone();
+                v.push(d);
+            }
+            v
+        },
         common_name: if r.chance(2, 3) { Some(text(r)) } else { None },
         country: if r.chance(1, 2) { Some(word(r, PRINTABLE2, 2, 2)) } else { None },
         org: if r.chance(1, 2) { Some(text(r)) } else { None },
